@@ -314,7 +314,9 @@ func checkC13(tier string) int {
 							st.Rewards.RewardState.Rewards = append(st.Rewards.RewardState.Rewards, rewards.IntervalReward{Address: sk.ValidatorAddress, Index: idx, Amount: chunk})
 						}
 						st.Rewards.RewardState.AddrList = append(st.Rewards.RewardState.AddrList, sk.ValidatorAddress)
-						st.Rewards.CumuState.MaturedBalances = append(st.Rewards.CumuState.MaturedBalances, rewards.RewardAmount{Address: sk.ValidatorAddress, Amount: all})
+						// (of the 5000 that had matured there, 2000 had been withdrawn)
+						st.Rewards.CumuState.MaturedBalances = append(st.Rewards.CumuState.MaturedBalances, rewards.RewardAmount{Address: sk.ValidatorAddress, Amount: balance.NewAmountFromBigInt(world.BigFromString("3000000000000000000000"))})
+						st.Rewards.CumuState.WithdrawnAmounts = append(st.Rewards.CumuState.WithdrawnAmounts, rewards.RewardAmount{Address: sk.ValidatorAddress, Amount: balance.NewAmountFromBigInt(world.BigFromString("2000000000000000000000"))})
 						total.Add(total, all.BigInt())
 					}
 					st.Rewards.RewardState.Intervals = append(st.Rewards.RewardState.Intervals, rewards.Interval{LastIndex: 3, LastHeight: 2})
@@ -324,7 +326,7 @@ func checkC13(tier string) int {
 			return p
 		},
 		newMon: func(w *world.World) func(run *hist.Runner, blk *hist.Block) []mon.Finding {
-			m := mon.NewC13()
+			m := mon.NewC13FromGenesis(w.Doc.AppState)
 			return wrapStateful(m.OnBlock)
 		},
 		gates:   map[string]int{"ok:WITHDRAW_REWARD": 1},
